@@ -1,16 +1,20 @@
 (** Writer API, part 9 (C19): copying a file through the library.
     A client reads what the reader reports for a file written by an accepted
-    complete program P - the metadata [reader_view (fill_meta (ws_meta st))] and the
-    points of every point cloud - and issues the calls [copy_calls]: new with the
-    same GUID, coordinate metadata, creation time, every extension, and per point
-    cloud: [add_pointcloud] with the reported GUID and prototype, every setter with
-    the reported value, [add_point] for every raw point, finalize.
-    Shown here, for programs WITHOUT IMAGES ([_partial]: the image blobs' bytes are
-    not tracked by the abstraction of Proofs/WapiAccept.v): the copy is again a complete
-    program of acceptable calls, hence every call returns Ok (Proofs/WapiAccept.v);
-    its final metadata equals the original's except for the file offsets; its items
-    are the original's point cloud items; and the calls a client issues from the
-    copy are the SAME calls: copying the copy is the identity. *)
+    complete program P - the metadata [reader_view (fill_meta (ws_meta st))], the
+    points of every point cloud, the bytes of the blobs of every image - and issues
+    the calls [copy_calls] (harness/src/ext_copy.rs): new with the same GUID,
+    coordinate metadata, creation time, every extension; per point cloud
+    [add_pointcloud] with the reported GUID and prototype, every setter with the
+    reported value, [add_point] for every raw point, finalize; per image [add_image],
+    a setter for every field present, visual reference and projection with their
+    bytes and masks, finalize.
+    Shown here: the copy is again a complete program of acceptable calls, hence every
+    call returns Ok (Proofs/WapiAccept.v); its final metadata equals the original's
+    except for the file offsets of point clouds and image blobs; its point cloud items
+    and image bytes are the original's; and the calls a client issues from the copy are
+    the SAME calls: copying the copy is the identity.  The image bytes are those of the
+    pure metadata semantics of Proofs/WapiAccept.v ([program_image_bytes]); that the
+    reader returns exactly them for the image's blob descriptors is not proved here. *)
 From Coq Require Import ZArith Lia Bool.
 From Flocq Require Import Binary Bits.
 From E57 Require Import Base.Prelude Base.Floats Spec.PageSpec Model.Device Model.PagedWriter Model.Prog Model.BsWrite
@@ -38,6 +42,14 @@ Definition aacc (a : astate) (c : wcall) : Prop :=
       | APc p => ap_fin p = false /\ custom_limits_ok (ap_cil p) (ap_ccl p) (ap_desc p) = true
       | _ => True
       end
+  | ImAddVisualReference _ _ _ _ _ => match a_sub a with AIm im fin g => fin = false | _ => True end
+  | ImAddPinhole _ _ _ _ | ImAddSpherical _ _ _ _ | ImAddCylindrical _ _ _ _ =>
+      match a_sub a with AIm im fin g => fin = false /\ im_projection im = None | _ => True end
+  | ImFinalize =>
+      match a_sub a with
+      | AIm im fin g => fin = false /\ (im_visual_reference im <> None \/ im_projection im <> None)
+      | _ => True
+      end
   | _ => True
   end.
 
@@ -50,26 +62,41 @@ Definition not_im (c : wcall) : Prop :=
 
 Lemma acc_abs st a c k : absr st a -> bnext (bstate_of st) c = Some k -> acceptable_call st c -> aacc a c.
 Proof.
-  intros (Ar & Ae & Ap & Af & Asub) Hb [Hrep Hx]. unfold bstate_of in Hb. unfold representable_call in Hrep.
+  intros (Ar & Ae & Ap & Ai & Af & Asub) Hb [Hrep Hx]. unfold bstate_of in Hb. unfold representable_call in Hrep.
   destruct (ws_open st).
-  - destruct (ws_sub st) as [|ps|im fin], (a_sub a) as [|p|] eqn:Ea; try contradiction;
+  - destruct (ws_sub st) as [|ps|im fin], (a_sub a) as [|p|aim afin ag] eqn:Ea; try contradiction;
       destruct c; try discriminate Hb; cbn [aacc]; rewrite <- ?Ae, <- ?Af; try exact I; try exact Hrep; try exact Hx.
     + destruct Hrep as [H1 H2]. auto.
     + rewrite Ea. destruct Asub as (Bp & _ & _ & Bf & _). rewrite <- Bp, <- Bf. exact Hrep.
     + rewrite Ea. destruct Asub as (_ & _ & Bd & Bf & Bi & Bc & _). rewrite <- Bd, <- Bf, <- Bi, <- Bc. exact Hrep.
+    + rewrite Ea. destruct Asub as [_ <-]. exact Hrep.
+    + rewrite Ea. destruct Asub as [<- <-]. destruct Hrep as [H1 H2]. split; [exact H1|apply im_no_off_proj_none; exact H2].
+    + rewrite Ea. destruct Asub as [<- <-]. destruct Hrep as [H1 H2]. split; [exact H1|apply im_no_off_proj_none; exact H2].
+    + rewrite Ea. destruct Asub as [<- <-]. destruct Hrep as [H1 H2]. split; [exact H1|apply im_no_off_proj_none; exact H2].
+    + rewrite Ea. destruct Asub as [<- <-]. destruct Hrep as [H1 H2]. split; [exact H1|].
+      rewrite im_no_off_vis_none, im_no_off_proj_none. exact H2.
   - destruct c; try discriminate Hb. exact Hx.
 Qed.
 
-Lemma abs_acc st a c k : absr st a -> bnext (bstate_of st) c = Some k -> not_im c -> aacc a c -> acceptable_call st c.
+Lemma abs_acc st a c k : absr st a -> bnext (bstate_of st) c = Some k -> aacc a c -> acceptable_call st c.
 Proof.
-  intros (Ar & Ae & Ap & Af & Asub) Hb Hn Ha. unfold bstate_of in Hb. unfold acceptable_call, representable_call.
+  intros (Ar & Ae & Ap & Ai & Af & Asub) Hb Ha. unfold bstate_of in Hb. unfold acceptable_call, representable_call.
   destruct (ws_open st).
-  - destruct (ws_sub st) as [|ps|im fin], (a_sub a) as [|p|] eqn:Ea; try contradiction;
-      destruct c; try discriminate Hb; try (destruct Hn; fail); cbn [aacc] in Ha; rewrite ?Ae, ?Af; try (split; [exact I|exact I]);
+  - destruct (ws_sub st) as [|ps|im fin], (a_sub a) as [|p|aim afin ag] eqn:Ea; try contradiction;
+      destruct c; try discriminate Hb; cbn [aacc] in Ha; rewrite ?Ae, ?Af; try (split; [exact I|exact I]);
       try (split; [exact Ha|exact I]).
     + destruct Ha as (H1 & H2 & H3). auto.
     + rewrite Ea in Ha. destruct Asub as (Bp & _ & _ & Bf & _). rewrite Bp, Bf. split; [exact Ha|exact I].
     + rewrite Ea in Ha. destruct Asub as (_ & _ & Bd & Bf & Bi & Bc & _). rewrite Bd, Bf, Bi, Bc. split; [exact Ha|exact I].
+    + rewrite Ea in Ha. destruct Asub as [_ ->]. split; [exact Ha|exact I].
+    + rewrite Ea in Ha. destruct Asub as [<- ->]. destruct Ha as [H1 H2]. split; [|exact I].
+      split; [exact H1|apply im_no_off_proj_none; exact H2].
+    + rewrite Ea in Ha. destruct Asub as [<- ->]. destruct Ha as [H1 H2]. split; [|exact I].
+      split; [exact H1|apply im_no_off_proj_none; exact H2].
+    + rewrite Ea in Ha. destruct Asub as [<- ->]. destruct Ha as [H1 H2]. split; [|exact I].
+      split; [exact H1|apply im_no_off_proj_none; exact H2].
+    + rewrite Ea in Ha. destruct Asub as [<- ->]. destruct Ha as [H1 H2]. split; [|exact I]. split; [exact H1|].
+      rewrite im_no_off_vis_none, im_no_off_proj_none in H2. exact H2.
   - destruct c; try discriminate Hb. destruct (ws_sub st); split; try exact I; exact Ha.
 Qed.
 
@@ -103,7 +130,7 @@ Definition sub_ok (exts : list extension) (p : apc) : Prop :=
   checks exts (ap_proto p) /\ Forall (pt_ok (ap_proto p)) (ap_pts p) /\
   ap_bounds p = fold_bounds (ap_proto p) (ap_pts p) (bounds_new (ap_proto p)) /\
   pc_prototype (ap_desc p) = ap_proto p /\ exists g, pc_guid (ap_desc p) = Some g.
-Definition good (lv : xstring) (a : astate) : Prop :=
+Definition good_pc (lv : xstring) (a : astate) : Prop :=
   root_shape lv (a_root a) /\ exts_rep (a_exts a) /\ Forall (pc_src_ok (a_exts a)) (a_pcs a) /\
   match a_sub a with APc p => ap_fin p = false -> sub_ok (a_exts a) p | _ => True end.
 
@@ -149,11 +176,11 @@ Proof.
   split; [apply (ext_validate_prototype_ok proto exts H2)|split; [apply (capacity_fits proto mpp H3)|exact R19]].
 Qed.
 
-Theorem good_step lv a c : good lv a -> aacc a c -> call_wf c -> good lv (astep lv a c).
+Theorem good_pc_step lv a c : good_pc lv a -> aacc a c -> call_wf c -> good_pc lv (astep lv a c).
 Proof.
   intros (Hr & He & Hp & Hs) Ha Hwf. destruct c; cbn [astep aacc call_wf] in *;
     try (split; [exact Hr|split; [exact He|split; [exact Hp|exact Hs]]]);
-    unfold good, set_asub; cbn [a_root a_exts a_pcs a_sub].
+    unfold good_pc, set_asub; cbn [a_root a_exts a_pcs a_sub].
   - (* NewWriter *) split; [repeat split; try reflexivity; exact Ha|]. split; [repeat constructor|]. split; [constructor|exact I].
   - (* SetCoordinateMetadata *) destruct (a_root a). cbn in *. split; [exact Hr|]. auto.
   - (* SetCreation *) destruct (a_root a). cbn in *. split; [exact Hr|]. auto.
@@ -196,8 +223,63 @@ Proof.
     repeat (split; [reflexivity|]). eauto.
   - (* PcDrop *) auto.
   - (* AddImage *) auto.
+  - destruct (a_sub a) eqn:Ea; cbn [a_root a_exts a_pcs a_sub]; rewrite ?Ea; auto.
+  - destruct (a_sub a) eqn:Ea; cbn [a_root a_exts a_pcs a_sub]; rewrite ?Ea; auto.
+  - destruct (a_sub a) eqn:Ea; cbn [aproj a_root a_exts a_pcs a_sub]; rewrite ?Ea; auto.
+  - destruct (a_sub a) eqn:Ea; cbn [aproj a_root a_exts a_pcs a_sub]; rewrite ?Ea; auto.
+  - destruct (a_sub a) eqn:Ea; cbn [aproj a_root a_exts a_pcs a_sub]; rewrite ?Ea; auto.
+  - destruct (a_sub a) eqn:Ea; cbn [a_root a_exts a_pcs a_sub]; rewrite ?Ea; auto.
   - (* ImDrop *) auto.
 Qed.
+
+(** ** images: the blobs of a representation are those of the bytes handed over *)
+Definition rep_blobs_vr (v : visual_reference) : blob * option blob := (ib_data (vr_blob v), vr_mask v).
+Definition rep_blobs_proj (p : projection) : blob * option blob :=
+  match p with
+  | PPinhole x => (ib_data (ph_blob x), ph_mask x)
+  | PSpherical x => (ib_data (si_blob x), si_mask x)
+  | PCylindrical x => (ib_data (ci_blob x), ci_mask x)
+  end.
+Definition rep_ok (bs : option (blob * option blob)) (g : option rep_bytes) : Prop :=
+  match bs, g with
+  | Some (b, m), Some (d, mk) => b = ablob d /\ m = option_map ablob mk
+  | None, None => True
+  | _, _ => False
+  end.
+Definition ghost_ok (im : image) (g : im_ghost) : Prop :=
+  rep_ok (option_map rep_blobs_vr (im_visual_reference im)) (fst g) /\
+  rep_ok (option_map rep_blobs_proj (im_projection im)) (snd g) /\ exists gu, im_guid im = Some gu.
+Definition im_src_ok (x : image * im_ghost) : Prop :=
+  ghost_ok (fst x) (snd x) /\ (im_visual_reference (fst x) <> None \/ im_projection (fst x) <> None).
+Definition good_im (a : astate) : Prop :=
+  Forall im_src_ok (a_imgs a) /\
+  match a_sub a with AIm im fin g => fin = false -> ghost_ok im g | _ => True end.
+
+Lemma good_im_step lv a c : good_im a -> aacc a c -> good_im (astep lv a c).
+Proof.
+  intros (Hi & Hs) Ha. unfold good_im.
+  destruct (a_sub a) as [|p|im fin g] eqn:Ea; destruct c; cbn [astep aacc aproj] in *; rewrite ?Ea in *; unfold set_asub;
+    try destruct (a_root a); cbn [a_imgs a_sub]; rewrite ?Ea;
+    try (split; [assumption|first [exact I|assumption]]);
+    try (split; [constructor|exact I]);
+    try (split; [exact Hi|intros _; split; [exact I|split; [exact I|eexists; reflexivity]]]).
+  - (* ImSet *) split; [exact Hi|]. intros Hf. destruct (Hs Hf) as (G1 & G2 & gu & G3).
+    destruct im, f; cbn in *; repeat split; eauto.
+  - (* visual *) split; [exact Hi|]. intros _. destruct (Hs Ha) as (G1 & G2 & gu & G3). destruct im; cbn in *. repeat split; eauto.
+  - split; [exact Hi|]. intros _. destruct Ha as [Hf Hp]. destruct (Hs Hf) as (G1 & G2 & gu & G3).
+    destruct im; cbn in *. repeat split; eauto.
+  - split; [exact Hi|]. intros _. destruct Ha as [Hf Hp]. destruct (Hs Hf) as (G1 & G2 & gu & G3).
+    destruct im; cbn in *. repeat split; eauto.
+  - split; [exact Hi|]. intros _. destruct Ha as [Hf Hp]. destruct (Hs Hf) as (G1 & G2 & gu & G3).
+    destruct im; cbn in *. repeat split; eauto.
+  - (* ImFinalize *) destruct Ha as [Hf Hany].
+    split; [|intros H; discriminate H]. apply Forall_app. split; [exact Hi|]. constructor; [|constructor].
+    split; [exact (Hs Hf)|exact Hany].
+Qed.
+
+Definition good (lv : xstring) (a : astate) : Prop := good_pc lv a /\ good_im a.
+Theorem good_step lv a c : good lv a -> aacc a c -> call_wf c -> good lv (astep lv a c).
+Proof. intros [H1 H2] Ha Hwf. split; [apply good_pc_step; assumption|apply good_im_step; assumption]. Qed.
 
 (** * 3. Real runs and abstract runs *)
 
@@ -233,18 +315,18 @@ Qed.
 
 (** calls that are acceptable on the abstract state are acceptable on the real one *)
 Lemma lift_acc : forall calls st l a, ws_inv st l -> guid_inv st -> Forall call_wf calls ->
-  borrow_ok (bstate_of st) calls -> Forall not_im calls -> absr st a -> aacc_calls lib_version a calls ->
+  borrow_ok (bstate_of st) calls -> absr st a -> aacc_calls lib_version a calls ->
   ACC st l calls.
 Proof.
-  induction calls as [|c r IH]; intros st l a Hinv Hg Hwf Hb Hn Habs Ha; [exact I|].
-  inversion Hwf as [|? ? Hc Hr]; subst. inversion Hn as [|? ? Hn1 Hn2]; subst. cbn [borrow_ok] in Hb.
+  induction calls as [|c r IH]; intros st l a Hinv Hg Hwf Hb Habs Ha; [exact I|].
+  inversion Hwf as [|? ? Hc Hr]; subst. cbn [borrow_ok] in Hb.
   destruct (bnext (bstate_of st) c) as [k'|] eqn:Ek; [|destruct Hb].
   cbn [aacc_calls] in Ha. destruct Ha as [Ha1 Ha2].
-  pose proof (abs_acc st a c k' Habs Ek Hn1 Ha1) as Hacc.
+  pose proof (abs_acc st a c k' Habs Ek Ha1) as Hacc.
   destruct (accept_step_abs gen_xml lib_version gen_xml_ok st l c k' a Hinv Hg Hc Ek Hacc Habs)
     as (l1 & st1 & x & Hrun1 & Hx & Hinv1 & Hle1 & Hg1 & Hk1 & Habs1).
   cbn [acceptable_calls]. split; [exact Hacc|]. rewrite Hrun1. rewrite <- Hk1 in Hb.
-  apply (IH st1 l1 _ Hinv1 Hg1 Hr Hb Hn2 Habs1 Ha2).
+  apply (IH st1 l1 _ Hinv1 Hg1 Hr Hb Habs1 Ha2).
 Qed.
 
 End Runs.
@@ -440,12 +522,63 @@ Fixpoint pcs_copy (pcs : list pointcloud) (pts : list (list (list rvalue))) : li
       AddPointcloud (guid_of pc) (pc_prototype pc) :: pc_body pc p ++ [PcFinalize; PcDrop] ++ pcs_copy r q
   | _, _ => []
   end.
-Definition copy_tops (m : file_meta) (pts : list (list (list rvalue))) : list wcall :=
+Definition guid_of_im (im : image) : xstring := match im_guid im with Some g => g | None => [] end.
+Definition opt_set {A} (mk : A -> im_field) (o : option A) : list wcall :=
+  match o with Some v => [ImSet (mk v)] | None => [] end.
+(** a setter for every field that is present *)
+Definition im_setters (im : image) : list wcall :=
+  opt_set IfName (im_name im) ++ opt_set IfDescription (im_description im) ++
+  opt_set IfPointcloudGuid (im_pointcloud_guid im) ++ opt_set IfTransform (im_transform im) ++
+  opt_set IfAcquisition (im_acquisition im) ++ opt_set IfSensorVendor (im_sensor_vendor im) ++
+  opt_set IfSensorModel (im_sensor_model im) ++ opt_set IfSensorSerial (im_sensor_serial im).
+(** the representations, visual reference first, with the bytes the reader returned for their blobs *)
+Definition vis_call (v : option visual_reference) (gv : option rep_bytes) : list wcall :=
+  match v, gv with
+  | Some v, Some (d, mk) => [ImAddVisualReference (ib_format (vr_blob v)) d (vr_width v) (vr_height v) mk]
+  | _, _ => []
+  end.
+Definition proj_call (pj : option projection) (gp : option rep_bytes) : list wcall :=
+  match pj, gp with
+  | Some (PPinhole x), Some (d, mk) =>
+      [ImAddPinhole (ib_format (ph_blob x)) d
+         (mkPhp (ph_width x) (ph_height x) (ph_focal_length x) (ph_pixel_width x) (ph_pixel_height x)
+                (ph_principal_x x) (ph_principal_y x)) mk]
+  | Some (PSpherical x), Some (d, mk) =>
+      [ImAddSpherical (ib_format (si_blob x)) d
+         (mkSpp (si_width x) (si_height x) (si_pixel_width x) (si_pixel_height x)) mk]
+  | Some (PCylindrical x), Some (d, mk) =>
+      [ImAddCylindrical (ib_format (ci_blob x)) d
+         (mkCyp (ci_width x) (ci_height x) (ci_radius x) (ci_principal_y x) (ci_pixel_width x) (ci_pixel_height x)) mk]
+  | _, _ => []
+  end.
+Definition im_body (im : image) (g : im_ghost) : list wcall :=
+  im_setters im ++ vis_call (im_visual_reference im) (fst g) ++ proj_call (im_projection im) (snd g).
+Fixpoint ims_copy (ims : list image) (gs : list im_ghost) : list wcall :=
+  match ims, gs with
+  | im :: r, g :: q => AddImage (guid_of_im im) :: im_body im g ++ [ImFinalize; ImDrop] ++ ims_copy r q
+  | _, _ => []
+  end.
+
+Lemma opt_set_body {A} (mk : A -> im_field) o : Forall is_im_body (opt_set mk o).
+Proof. destruct o; repeat constructor. Qed.
+Lemma im_body_is_body im g : Forall is_im_body (im_body im g).
+Proof.
+  unfold im_body, im_setters. repeat (apply Forall_app; split); try apply opt_set_body.
+  - unfold vis_call. destruct (im_visual_reference im), (fst g) as [[d k]|]; repeat constructor.
+  - unfold proj_call. destruct (im_projection im) as [[x|x|x]|], (snd g) as [[d k]|]; repeat constructor.
+Qed.
+Lemma ims_copy_units : forall ims gs rest, units rest -> units (ims_copy ims gs ++ rest).
+Proof.
+  induction ims as [|im r IH]; intros [|g q] rest Hr; cbn [ims_copy app]; try exact Hr.
+  rewrite <- !app_assoc. apply un_im; [apply im_body_is_body|]. cbn [app]. apply IH. exact Hr.
+Qed.
+
+Definition copy_tops (m : file_meta) (pts : list (list (list rvalue))) (gs : list im_ghost) : list wcall :=
   SetCoordinateMetadata (rt_coordinate_metadata (fm_root m)) :: SetCreation (rt_creation (fm_root m)) ::
   map (fun e => RegisterExtension (e_namespace e) (e_url e)) (fm_extensions m) ++
-  pcs_copy (fm_pointclouds m) pts.
-Definition copy_calls (m : file_meta) (pts : list (list (list rvalue))) : list wcall :=
-  NewWriter (rt_guid (fm_root m)) :: copy_tops m pts ++ [Finalize].
+  pcs_copy (fm_pointclouds m) pts ++ ims_copy (fm_images m) gs.
+Definition copy_calls (m : file_meta) (pts : list (list (list rvalue))) (gs : list im_ghost) : list wcall :=
+  NewWriter (rt_guid (fm_root m)) :: copy_tops m pts gs ++ [Finalize].
 
 (** the descriptor the copy's [finalize] pushes (file offset 0) *)
 Definition set_all (pc d : pointcloud) : pointcloud := fold_left (fun d f => pc_set f d) (pc_fields pc) d.
@@ -454,35 +587,21 @@ Definition copied (pc : pointcloud) (pts : list (list rvalue)) : pointcloud :=
   desc_finish (set_all pc (desc_new (guid_of pc) proto (default_intensity_limits proto) (cl_of proto)))
               (fold_bounds proto pts (bounds_new proto)) 0 (len pts).
 
-Lemma pcs_copy_units : forall pcs pts, units (pcs_copy pcs pts).
+Lemma pcs_copy_units : forall pcs pts rest, units rest -> units (pcs_copy pcs pts ++ rest).
 Proof.
-  induction pcs as [|pc r IH]; intros [|p q]; cbn [pcs_copy]; try apply un_nil. apply un_pc.
+  induction pcs as [|pc r IH]; intros [|p q] rest Hr; cbn [pcs_copy app]; try exact Hr.
+  rewrite <- !app_assoc. apply un_pc.
   - unfold pc_body. apply Forall_app. split; apply Forall_forall; intros c Hc; apply in_map_iff in Hc as (x & <- & _); exact I.
   - split; left; unfold pc_body, has_ilim, has_clim; rewrite existsb_app; apply orb_true_intro; left; reflexivity.
-  - apply IH.
+  - cbn [app]. apply IH. exact Hr.
 Qed.
-Lemma copy_tops_units m pts : units (copy_tops m pts).
+Lemma copy_tops_units m pts gs : units (copy_tops m pts gs).
 Proof.
   unfold copy_tops. apply un_setter; [exact I|]. apply un_setter; [exact I|].
-  induction (fm_extensions m) as [|e r IH]; cbn [map app]; [apply pcs_copy_units|]. apply un_setter; [exact I|exact IH].
+  induction (fm_extensions m) as [|e r IH]; cbn [map app].
+  - apply pcs_copy_units. rewrite <- (app_nil_r (ims_copy _ _)). apply ims_copy_units. constructor.
+  - apply un_setter; [exact I|exact IH].
 Qed.
-Lemma pcs_copy_not_im : forall pcs pts, Forall not_im (pcs_copy pcs pts).
-Proof.
-  induction pcs as [|pc r IH]; intros [|p q]; cbn [pcs_copy]; try constructor; [exact I|].
-  unfold pc_body. rewrite <- app_assoc. apply Forall_app. split.
-  { apply Forall_forall. intros c Hc. apply in_map_iff in Hc as (x & <- & _). exact I. }
-  apply Forall_app. split.
-  { apply Forall_forall. intros c Hc. apply in_map_iff in Hc as (x & <- & _). exact I. }
-  constructor; [exact I|]. constructor; [exact I|apply IH].
-Qed.
-Lemma copy_calls_not_im m pts : Forall not_im (copy_calls m pts).
-Proof.
-  unfold copy_calls, copy_tops. cbn [app]. constructor; [exact I|]. constructor; [exact I|]. constructor; [exact I|].
-  rewrite <- app_assoc. apply Forall_app. split.
-  { apply Forall_forall. intros c Hc. apply in_map_iff in Hc as (x & <- & _). exact I. }
-  apply Forall_app. split; [apply pcs_copy_not_im|constructor; [exact I|constructor]].
-Qed.
-
 (** ** the abstract run of one copied point cloud *)
 Lemma arun_sets lv : forall fs a p, a_sub a = APc p ->
   arun lv a (map PcSet fs) =
@@ -520,7 +639,7 @@ Proof.
 Qed.
 
 Definition push (a : astate) (x : pointcloud * list (list rvalue)) : astate :=
-  mkAs (a_root a) (a_exts a) (a_pcs a ++ [x]) ANone (a_fin a).
+  mkAs (a_root a) (a_exts a) (a_pcs a ++ [x]) (a_imgs a) ANone (a_fin a).
 
 Lemma arun_pc_copy lv a pc pts rest :
   arun lv a (AddPointcloud (guid_of pc) (pc_prototype pc) :: pc_body pc pts ++ [PcFinalize; PcDrop] ++ rest) =
@@ -562,20 +681,116 @@ Proof.
 Qed.
 End CopyPc.
 
+(** * 6b. Copying an image: the calls of harness/src/ext_copy.rs *)
+Definition pushi (a : astate) (x : image * im_ghost) : astate :=
+  mkAs (a_root a) (a_exts a) (a_pcs a) (a_imgs a ++ [x]) ANone (a_fin a).
+Definition oset {A} (mk : A -> im_field) (o : option A) (im : image) : image :=
+  match o with Some v => im_set (mk v) im | None => im end.
+
+Lemma arun_opt_set lv {A} (mk : A -> im_field) (o : option A) r e p i im fin g f rest :
+  arun lv (mkAs r e p i (AIm im fin g) f) (opt_set mk o ++ rest) =
+  arun lv (mkAs r e p i (AIm (oset mk o im) fin g) f) rest.
+Proof. destruct o; reflexivity. Qed.
+Lemma aacc_opt_set lv {A} (mk : A -> im_field) (o : option A) r e p i im fin g f rest :
+  aacc_calls lv (mkAs r e p i (AIm (oset mk o im) fin g) f) rest ->
+  aacc_calls lv (mkAs r e p i (AIm im fin g) f) (opt_set mk o ++ rest).
+Proof. destruct o; cbn [opt_set app aacc_calls aacc astep a_sub set_asub oset]; auto. Qed.
+
+Definition vset (v : option visual_reference) (im : image) : image :=
+  match v with Some v0 => im_set_visual v0 im | None => im end.
+Definition pset (pj : option projection) (im : image) : image :=
+  match pj with Some p0 => im_set_projection p0 im | None => im end.
+
+Lemma arun_vis lv v gv r e p i im gp f rest : rep_ok (option_map rep_blobs_vr v) gv ->
+  arun lv (mkAs r e p i (AIm im false (None, gp)) f) (vis_call v gv ++ rest) =
+  arun lv (mkAs r e p i (AIm (vset v im) false (gv, gp)) f) rest.
+Proof.
+  destruct v as [[[vb vf] vm vw vh]|], gv as [[d k]|]; cbn; intros H; try contradiction; [|reflexivity].
+  destruct H as [-> ->]. reflexivity.
+Qed.
+Lemma aacc_vis lv v gv r e p i im gp f rest : rep_ok (option_map rep_blobs_vr v) gv ->
+  aacc_calls lv (mkAs r e p i (AIm (vset v im) false (gv, gp)) f) rest ->
+  aacc_calls lv (mkAs r e p i (AIm im false (None, gp)) f) (vis_call v gv ++ rest).
+Proof.
+  destruct v as [[[vb vf] vm vw vh]|], gv as [[d k]|]; cbn; intros H; try contradiction; [|auto].
+  destruct H as [-> ->]. auto.
+Qed.
+Lemma arun_proj lv pj gp r e p i im gv f rest : rep_ok (option_map rep_blobs_proj pj) gp ->
+  arun lv (mkAs r e p i (AIm im false (gv, None)) f) (proj_call pj gp ++ rest) =
+  arun lv (mkAs r e p i (AIm (pset pj im) false (gv, gp)) f) rest.
+Proof.
+  destruct pj as [[[[pb pf] pm pw ph f1 f2 f3 f4 f5]|[[pb pf] pm pw ph f1 f2]|[[pb pf] pm pw ph f1 f2 f3 f4]]|], gp as [[d k]|];
+    cbn; intros H; try contradiction; try reflexivity; destruct H as [-> ->]; reflexivity.
+Qed.
+Lemma aacc_proj lv pj gp r e p i im gv f rest : rep_ok (option_map rep_blobs_proj pj) gp -> im_projection im = None ->
+  aacc_calls lv (mkAs r e p i (AIm (pset pj im) false (gv, gp)) f) rest ->
+  aacc_calls lv (mkAs r e p i (AIm im false (gv, None)) f) (proj_call pj gp ++ rest).
+Proof.
+  destruct pj as [[[[pb pf] pm pw ph f1 f2 f3 f4 f5]|[[pb pf] pm pw ph f1 f2]|[[pb pf] pm pw ph f1 f2 f3 f4]]|], gp as [[d k]|];
+    cbn; intros H Hn; try contradiction; auto; destruct H as [-> ->]; auto.
+Qed.
+
+Lemma setters_result gu tr pg nm ds aq sv sm ss :
+  oset IfSensorSerial ss (oset IfSensorModel sm (oset IfSensorVendor sv (oset IfAcquisition aq (oset IfTransform tr
+    (oset IfPointcloudGuid pg (oset IfDescription ds (oset IfName nm (image_new gu)))))))) =
+  mkImage (Some gu) None None tr pg nm ds aq sv sm ss.
+Proof. destruct tr, pg, nm, ds, aq, sv, sm, ss; reflexivity. Qed.
+
+(** the abstract run of one copied image: the image itself is pushed *)
+Lemma im_copy_run lv a im g rest : a_fin a = false -> im_src_ok (im, g) ->
+  let cs := AddImage (guid_of_im im) :: im_body im g ++ [ImFinalize; ImDrop] ++ rest in
+  (aacc_calls lv (pushi a (im, g)) rest -> aacc_calls lv a cs) /\
+  arun lv a cs = arun lv (pushi a (im, g)) rest.
+Proof.
+  intros Hf ((G1 & G2 & gu & G3) & Hany). cbv zeta. cbn [fst snd] in *.
+  destruct a as [r e p i sb f]. cbn [a_fin] in Hf. subst f.
+  destruct im as [gd vr pr tr pg nm ds aq sv sm ss]. cbn in G1, G2, G3, Hany. subst gd. destruct g as [gv gp]. cbn [fst snd] in *.
+  unfold im_body, im_setters, guid_of_im. cbn.
+  rewrite <- !app_assoc.
+  assert (Efin : vset vr (pset pr (mkImage (Some gu) None None tr pg nm ds aq sv sm ss)) = mkImage (Some gu) vr pr tr pg nm ds aq sv sm ss)
+    by (destruct vr, pr; reflexivity).
+  assert (Efin2 : pset pr (vset vr (mkImage (Some gu) None None tr pg nm ds aq sv sm ss)) = mkImage (Some gu) vr pr tr pg nm ds aq sv sm ss)
+    by (destruct vr, pr; reflexivity).
+  split.
+  - intros Hrest. split; [reflexivity|]. unfold set_asub. cbn [a_root a_exts a_pcs a_imgs a_fin].
+    do 8 apply aacc_opt_set. rewrite setters_result.
+    apply aacc_vis; [exact G1|]. apply aacc_proj; [exact G2|destruct vr; reflexivity|]. rewrite Efin2.
+    cbn [app aacc_calls aacc astep a_sub a_root a_exts a_pcs a_imgs a_fin set_asub im_visual_reference im_projection].
+    split; [split; [reflexivity|exact Hany]|]. split; [exact I|exact Hrest].
+  - unfold set_asub. cbn [a_root a_exts a_pcs a_imgs a_fin]. rewrite !arun_opt_set, setters_result.
+    rewrite (arun_vis lv vr gv _ _ _ _ _ None _ _ G1), (arun_proj lv pr gp _ _ _ _ _ gv _ _ G2), Efin2.
+    reflexivity.
+Qed.
+
+Lemma ims_copy_run lv : forall xs a, a_fin a = false -> Forall im_src_ok xs ->
+  let cs := ims_copy (map fst xs) (map snd xs) in
+  aacc_calls lv a cs /\
+  (xs <> [] \/ a_sub a = ANone -> arun lv a cs = mkAs (a_root a) (a_exts a) (a_pcs a) (a_imgs a ++ xs) ANone (a_fin a)).
+Proof.
+  induction xs as [|[im g] xs IH]; intros a Hf Hok; cbv zeta.
+  - cbn [map ims_copy aacc_calls arun]. split; [exact I|]. intros [H|H]; [contradiction|]. rewrite app_nil_r.
+    destruct a; cbn in *; subst; reflexivity.
+  - inversion Hok as [|? ? Hx Hok']; subst. cbn [map ims_copy fst snd].
+    destruct (im_copy_run lv a im g (ims_copy (map fst xs) (map snd xs)) Hf Hx) as [A1 A2]. cbv zeta in A1, A2.
+    destruct (IH (pushi a (im, g)) Hf Hok') as [I1 I2]. cbv zeta in I1, I2.
+    split; [apply A1; exact I1|]. intros _. rewrite A2, I2 by (right; reflexivity).
+    cbn [pushi a_root a_exts a_pcs a_imgs a_fin]. rewrite <- app_assoc. reflexivity.
+Qed.
+
 (** * 7. The abstract run of the whole copy *)
 Definition reg_calls (exts : list extension) : list wcall :=
   map (fun e => RegisterExtension (e_namespace e) (e_url e)) exts.
 
 Lemma reg_run lv : forall exts a, exts_rep (a_exts a ++ exts) ->
   aacc_calls lv a (reg_calls exts) /\
-  arun lv a (reg_calls exts) = mkAs (a_root a) (a_exts a ++ exts) (a_pcs a) (a_sub a) (a_fin a).
+  arun lv a (reg_calls exts) = mkAs (a_root a) (a_exts a ++ exts) (a_pcs a) (a_imgs a) (a_sub a) (a_fin a).
 Proof.
   induction exts as [|e r IH]; intros a Hr.
   - cbn [reg_calls map aacc_calls arun]. rewrite app_nil_r. split; [exact I|]. destruct a; reflexivity.
   - cbn [reg_calls map aacc_calls arun aacc astep]. fold (reg_calls r).
     assert (Hr' : exts_rep ((a_exts a ++ [mkExtension (e_namespace e) (e_url e)]) ++ r)).
     { rewrite <- app_assoc. cbn [app]. destruct e; exact Hr. }
-    destruct (IH (mkAs (a_root a) (a_exts a ++ [mkExtension (e_namespace e) (e_url e)]) (a_pcs a) (a_sub a) (a_fin a)) Hr')
+    destruct (IH (mkAs (a_root a) (a_exts a ++ [mkExtension (e_namespace e) (e_url e)]) (a_pcs a) (a_imgs a) (a_sub a) (a_fin a)) Hr')
       as [I1 I2].
     split; [split; [|exact I1]|].
     + destruct Hr as (F & Nn & Nu). apply Forall_app in F as [_ F]. apply Forall_inv in F.
@@ -608,7 +823,7 @@ Lemma copy_pcs_run : forall xs a, a_fin a = false -> a_sub a = ANone ->
   Forall (fun x => proto_canonical (pc_prototype (fst x))) xs ->
   let cs := pcs_copy (map (fun x => FP (fst x)) xs) (map snd xs) in
   aacc_calls lv a cs /\
-  arun lv a cs = mkAs (a_root a) (a_exts a) (a_pcs a ++ map copied_pair xs) ANone (a_fin a).
+  arun lv a cs = mkAs (a_root a) (a_exts a) (a_pcs a ++ map copied_pair xs) (a_imgs a) ANone (a_fin a).
 Proof.
   induction xs as [|[pc pts] xs IH]; intros a Hf Hs Hok Hlim Hcn; cbv zeta.
   - cbn [map pcs_copy aacc_calls arun]. rewrite app_nil_r. split; [exact I|]. destruct a; cbn in *; subst; reflexivity.
@@ -643,44 +858,66 @@ End CopyRun.
 (** * 8. The whole copy on the abstract state *)
 Lemma good_new lv a g : g <> [] -> good lv (astep lv a (NewWriter g)).
 Proof.
-  intros H. cbn [astep]. split; [repeat split; try reflexivity; exact H|]. split; [repeat constructor|].
-  split; [constructor|exact I].
+  intros H. cbn [astep]. split.
+  - split; [repeat split; try reflexivity; exact H|]. split; [repeat constructor|]. split; [constructor|exact I].
+  - split; [constructor|exact I].
 Qed.
 
 Section CopyAbs.
 Variables fmt64 fmt32 : N -> xstring.
 Variable lv : xstring.
 Notation FP := (fill_pc fmt64 fmt32).
+Notation FI := (fill_im fmt64).
 
-(** the metadata a reader reports for the abstract state [a] (point cloud offsets are not used by the copy) *)
-Definition abs_view (a : astate) (imgs : list image) : file_meta :=
-  mkFileMeta (Spec.XeMetaOk.reader_root (fill_root fmt64 (a_root a))) (a_exts a) (map (fun x => FP (fst x)) (a_pcs a)) imgs.
+(** the metadata a reader reports for the abstract state [a] (offsets are not used by the copy) *)
+Definition abs_view (a : astate) : file_meta :=
+  mkFileMeta (Spec.XeMetaOk.reader_root (fill_root fmt64 (a_root a))) (a_exts a) (map (fun x => FP (fst x)) (a_pcs a))
+             (map (fun x => FI (fst x)) (a_imgs a)).
 
 Definition copied_root (r : root) : root :=
   mkRoot (rt_format r) (rt_guid r) (rt_major_version r) (rt_minor_version r) (rt_library_version r)
          (option_map (fill_dt fmt64) (rt_creation r)) (rt_coordinate_metadata r).
+Definition filled_im (x : image * im_ghost) : image * im_ghost := (FI (fst x), snd x).
 
-Theorem copy_abs : forall aP imgs, good lv aP ->
+Lemma im_src_ok_fill x : im_src_ok x -> im_src_ok (filled_im x).
+Proof.
+  destruct x as [im g]. unfold im_src_ok, filled_im, ghost_ok. cbn [fst snd].
+  destruct im as [gd vr pr tr pg nm ds aq sv sm ss]. cbn.
+  intros ((G1 & G2 & G3) & Hany). split; [split; [exact G1|split; [|exact G3]]|].
+  - destruct pr as [[x|x|x]|]; exact G2.
+  - destruct Hany as [H|H]; [left; exact H|right]. destruct pr; [discriminate|contradiction].
+Qed.
+
+Theorem copy_abs : forall aP, good lv aP ->
   Forall (fun x => custom_limits_ok true true (fst x) = true) (a_pcs aP) ->
   Forall (fun x => proto_canonical (pc_prototype (fst x))) (a_pcs aP) ->
-  let P2 := copy_calls (abs_view aP imgs) (map snd (a_pcs aP)) in
+  let P2 := copy_calls (abs_view aP) (map snd (a_pcs aP)) (map snd (a_imgs aP)) in
   aacc_calls lv a_init P2 /\
-  arun lv a_init P2 = mkAs (copied_root (a_root aP)) (a_exts aP) (map (copied_pair fmt64 fmt32) (a_pcs aP)) ANone true.
+  arun lv a_init P2 = mkAs (copied_root (a_root aP)) (a_exts aP) (map (copied_pair fmt64 fmt32) (a_pcs aP))
+                           (map filled_im (a_imgs aP)) ANone true.
 Proof.
-  intros aP imgs (Hr & He & Hp & _) Hlim Hcn P2. subst P2. unfold copy_calls, copy_tops, abs_view.
+  intros aP ((Hr & He & Hp & _) & (Him & _)) Hlim Hcn P2. subst P2. unfold copy_calls, copy_tops, abs_view.
   destruct Hr as (R1 & R2 & R3 & R4 & R5).
   destruct (a_root aP) as [f g ma mi l cr cm] eqn:Er. cbn in R1, R2, R3, R4, R5. subst.
-  cbn [fm_root fm_extensions fm_pointclouds Spec.XeMetaOk.reader_root fill_root rt_guid rt_coordinate_metadata rt_creation
+  cbn [fm_root fm_extensions fm_pointclouds fm_images Spec.XeMetaOk.reader_root fill_root rt_guid rt_coordinate_metadata rt_creation
        rt_format rt_major_version rt_library_version].
-  cbn [app aacc_calls arun aacc astep a_init a_root a_exts a_pcs a_sub a_fin root_default rt_format].
-  fold (reg_calls (a_exts aP)). rewrite <- app_assoc.
-  set (a3 := mkAs _ [] [] ANone false).
-  destruct (reg_run lv (a_exts aP) a3 He) as [G1 G2]. cbn [a3 a_root a_exts a_pcs a_sub a_fin app] in G2.
+  cbn [app aacc_calls arun aacc astep a_init a_root a_exts a_pcs a_imgs a_sub a_fin root_default rt_format].
+  fold (reg_calls (a_exts aP)). rewrite <- !app_assoc.
+  set (a3 := mkAs _ [] [] [] ANone false).
+  destruct (reg_run lv (a_exts aP) a3 He) as [G1 G2]. cbn [a3 a_root a_exts a_pcs a_imgs a_sub a_fin app] in G2.
   rewrite aacc_calls_app, arun_app, G2.
-  set (a4 := mkAs _ (a_exts aP) [] ANone false).
+  set (a4 := mkAs _ (a_exts aP) [] [] ANone false).
   destruct (copy_pcs_run fmt64 fmt32 lv (a_pcs aP) a4 eq_refl eq_refl Hp Hlim Hcn) as [G3 G4]. cbv zeta in G3, G4.
-  rewrite aacc_calls_app, arun_app, G4. cbn [a4 a_root a_exts a_pcs a_sub a_fin app aacc_calls arun aacc astep].
-  split; [auto 8|]. unfold copied_root. cbn. reflexivity.
+  rewrite aacc_calls_app, arun_app, G4. cbn [a4 a_root a_exts a_pcs a_imgs a_sub a_fin app].
+  set (a5 := mkAs _ (a_exts aP) _ [] ANone false).
+  assert (Hsrc : Forall im_src_ok (map filled_im (a_imgs aP))).
+  { rewrite Forall_forall in *. intros x Hx. apply in_map_iff in Hx as (y & <- & Hy). apply im_src_ok_fill. apply Him. exact Hy. }
+  destruct (ims_copy_run lv (map filled_im (a_imgs aP)) a5 eq_refl Hsrc) as [G5 G6]. cbv zeta in G5, G6.
+  rewrite !map_map in G5, G6. cbn [filled_im fst snd] in G5, G6.
+  change (map (fun x : image * im_ghost => snd x) (a_imgs aP)) with (map snd (a_imgs aP)) in G5, G6.
+  rewrite aacc_calls_app, arun_app, G6 by (right; reflexivity).
+  cbn [a5 a_root a_exts a_pcs a_imgs a_sub a_fin app aacc_calls arun aacc astep].
+  split; [auto 10|]. unfold copied_root. cbn. reflexivity.
 Qed.
 
 End CopyAbs.
@@ -714,10 +951,17 @@ Proof.
       cbn [body_points]. cbn [ap_pts ap_desc] in E2, E3. rewrite E2, <- app_assoc. auto.
 Qed.
 
-Lemma arun_im_body lv : forall ibody a, Forall is_im_body ibody -> arun lv a ibody = a.
+Lemma arun_im_keep lv : forall ibody a im fin g, Forall is_im_body ibody -> a_sub a = AIm im fin g ->
+  exists im' fin' g', arun lv a ibody = mkAs (a_root a) (a_exts a) (a_pcs a) (a_imgs a) (AIm im' fin' g') (a_fin a).
 Proof.
-  induction ibody as [|c r IH]; intros a Hb; [reflexivity|]. inversion Hb as [|? ? Hc Hb']; subst.
-  destruct c; try (destruct Hc; fail); cbn [arun astep]; apply IH; exact Hb'.
+  induction ibody as [|c r IH]; intros a im fin g Hb Ha.
+  - exists im, fin, g. destruct a; cbn in *; subst; reflexivity.
+  - inversion Hb as [|? ? Hc Hb']; subst.
+    assert (E : exists im1 fin1 g1, astep lv a c = mkAs (a_root a) (a_exts a) (a_pcs a) (a_imgs a) (AIm im1 fin1 g1) (a_fin a)).
+    { destruct c; try (destruct Hc; fail); cbn [astep aproj]; rewrite Ha; unfold set_asub; eauto. }
+    destruct E as (im1 & fin1 & g1 & E). cbn [arun]. rewrite E.
+    destruct (IH (mkAs (a_root a) (a_exts a) (a_pcs a) (a_imgs a) (AIm im1 fin1 g1) (a_fin a)) im1 fin1 g1 Hb' eq_refl)
+      as (im2 & fin2 & g2 & E2). rewrite E2. cbn [a_root a_exts a_pcs a_imgs a_fin]. eauto.
 Qed.
 
 Lemma explains_abs lv : forall tops is os pcs ims bl, explains tops is os pcs ims bl ->
@@ -746,7 +990,9 @@ Proof.
     cbn [map item_pcs flat_map app]. fold (item_pcs is). rewrite I4. f_equal. unfold pair_item. cbn [fst snd ap_pts] in *.
     destruct (desc_finish_bounds (ap_desc p') (ap_bounds p') 0 (len (ap_pts p'))) as (_ & _ & _ & _ & _ & _ & D7).
     rewrite D7, E3, E2. reflexivity.
-  - cbn [arun astep]. rewrite arun_app, (arun_im_body lv ibody) by exact Hb. cbn [app arun astep]. unfold set_asub. cbn [a_sub a_root a_exts a_pcs a_fin].
+  - cbn [arun astep]. rewrite arun_app.
+    match goal with |- context [arun lv ?s ibody] => destruct (arun_im_keep lv ibody s _ _ _ Hb eq_refl) as (im2 & fin2 & g2 & E2) end.
+    rewrite E2. unfold set_asub. cbn [app arun astep a_sub a_root a_exts a_pcs a_imgs a_fin]. unfold set_asub. cbn [a_sub a_root a_exts a_pcs a_imgs a_fin].
     match goal with |- context [arun lv ?s r] => destruct (IH s eq_refl) as (I1 & I2 & new & I3 & I4) end.
     cbv zeta in *. cbn [a_pcs a_fin] in I2, I3. split; [exact I1|]. split; [exact I2|].
     exists new. split; [exact I3|]. rewrite item_pcs_app, item_pcs_im. exact I4.
@@ -805,6 +1051,28 @@ Proof.
     (default_intensity_limits (pc_prototype pc)) (cl_of (pc_prototype pc)))) as (_ & _ & S3 & _). rewrite S3. reflexivity.
 Qed.
 
+(** the float-limit part of [proto_canonical] follows from acceptance (no NaN limits since /repo
+    eaf8fc6); what remains to be assumed is the part about scale and offset of scaled integers,
+    which the writer does not check: a NaN scale or offset is accepted and written *)
+From E57 Require Import Proofs.WapiFloatOrder Proofs.WapiFloatLimits.
+Definition scaled_canonical (p : list record) : Prop :=
+  forall r, In r p ->
+    match r_type r with
+    | DScaledInteger _ _ s o => canon64 (f64_bits s) = f64_bits s /\ canon64 (f64_bits o) = f64_bits o
+    | _ => True
+    end.
+Lemma canonical_of_valid p : validate_prototype p = Ok tt -> scaled_canonical p -> proto_canonical p.
+Proof.
+  intros Hv Hs r Hr. specialize (Hs r Hr). apply validate_prototype_ok in Hv.
+  destruct Hv as (_ & _ & _ & _ & _ & _ & _ & _ & _ & _ & _ & _ & _ & _ & _ & _ & _ & _ & _ & Hf).
+  specialize (Hf r Hr). destruct (r_type r) as [mn mx|mn mx| |]; try exact Hs; try exact I;
+    cbn [float_range_ok] in Hf; destruct Hf as (N1 & N2 & _); split; intros x ->.
+  - apply number_canon32_any. apply conv_nan. apply (N1 _ eq_refl).
+  - apply number_canon32_any. apply conv_nan. apply (N2 _ eq_refl).
+  - apply number_canon64_any. apply (N1 _ eq_refl).
+  - apply number_canon64_any. apply (N2 _ eq_refl).
+Qed.
+
 Section Copy.
 Variables fmt64 fmt32 : N -> xstring.
 Variable version : xstring.
@@ -821,18 +1089,54 @@ Proof. destruct pc. reflexivity. Qed.
 Lemma map_no_off_fill l : map (fun pc => pc_no_off (FP pc)) l = map FP (map pc_no_off l).
 Proof. rewrite map_map. apply map_ext. intros pc. symmetry. apply fill_no_off. Qed.
 
-(** the metadata as written, the file offsets of the point clouds erased *)
-Definition content_view (st : wstate) : file_meta :=
-  mkFileMeta (fill_root fmt64 (ws_root st)) (ws_exts st) (map (fun pc => pc_no_off (FP pc)) (ws_pcs st)) (ws_imgs st).
-
-Lemma copy_calls_abs st a pts : absr st a ->
-  copy_calls (reader_view (fill_meta fmt64 fmt32 (ws_meta st))) pts = copy_calls (abs_view fmt64 fmt32 a (map (fill_im fmt64) (ws_imgs st))) pts.
+Notation FI := (fill_im fmt64).
+Lemma fill_im_no_off im : FI (im_no_off im) = im_no_off (FI im).
+Proof. destruct im as [g v [[x|x|x]|]]; reflexivity. Qed.
+Lemma map_im_no_off_fill l : map (fun im => im_no_off (FI im)) l = map FI (map im_no_off l).
+Proof. rewrite map_map. apply map_ext. intros im. symmetry. apply fill_im_no_off. Qed.
+Lemma ims_copy_no_off : forall l gs, ims_copy (map im_no_off l) gs = ims_copy l gs.
 Proof.
-  intros (Ar & Ae & Ap & _). unfold copy_calls, copy_tops, reader_view, fill_meta, abs_view, ws_meta.
-  cbn [fm_root fm_extensions fm_pointclouds]. rewrite Ar, Ae. f_equal. f_equal. f_equal. f_equal. f_equal.
-  rewrite <- (pcs_copy_no_off (map FP (ws_pcs st))). rewrite map_map.
-  rewrite (map_ext _ (fun pc => FP (pc_no_off pc))) by (intros; symmetry; apply fill_no_off).
-  rewrite <- (map_map pc_no_off FP), Ap, map_map. reflexivity.
+  induction l as [|im r IH]; intros [|g q]; cbn [map ims_copy]; try reflexivity. rewrite IH. f_equal. f_equal.
+  destruct im as [gd [[[vb vf] vm vw vh]|] [[x|x|x]|]]; reflexivity.
+Qed.
+Lemma fill_proj_idem p : fill_proj fmt64 (fill_proj fmt64 p) = fill_proj fmt64 p.
+Proof. destruct p as [x|x|x]; cbn; rewrite !(fill64_idem fmt64 nan_text64); reflexivity. Qed.
+Lemma fill_im_idem im : FI (FI im) = FI im.
+Proof.
+  destruct im. unfold fill_im. cbn.
+  rewrite (omap_idem _ _ fill_proj_idem), (omap_idem _ _ (fill_tr_idem fmt64 nan_text64)),
+    (omap_idem _ _ (fill_dt_idem fmt64 nan_text64)). reflexivity.
+Qed.
+
+(** the metadata as written, the file offsets of the point clouds and of the image blobs erased *)
+Definition content_view (st : wstate) : file_meta :=
+  mkFileMeta (fill_root fmt64 (ws_root st)) (ws_exts st) (map (fun pc => pc_no_off (FP pc)) (ws_pcs st))
+             (map (fun im => im_no_off (FI im)) (ws_imgs st)).
+
+(** the bytes handed to the image writer for the final representations of every finished image,
+    in order: a function of the program (the ghost of the abstract run) *)
+Definition program_image_bytes (lv : xstring) (calls : list wcall) : list im_ghost :=
+  map snd (a_imgs (arun lv a_init calls)).
+
+Lemma copy_calls_abs st a pts gs : absr st a ->
+  copy_calls (reader_view (fill_meta fmt64 fmt32 (ws_meta st))) pts gs = copy_calls (abs_view fmt64 fmt32 a) pts gs.
+Proof.
+  intros (Ar & Ae & Ap & Ai & _). unfold copy_calls, copy_tops, reader_view, fill_meta, abs_view, ws_meta.
+  cbn [fm_root fm_extensions fm_pointclouds fm_images]. rewrite Ar, Ae. f_equal. f_equal. f_equal. f_equal. f_equal. f_equal.
+  - rewrite <- (pcs_copy_no_off (map FP (ws_pcs st))). rewrite map_map.
+    rewrite (map_ext _ (fun pc => FP (pc_no_off pc))) by (intros; symmetry; apply fill_no_off).
+    rewrite <- (map_map pc_no_off FP), Ap, map_map. reflexivity.
+  - rewrite <- (ims_copy_no_off (map FI (ws_imgs st))). rewrite map_map.
+    rewrite (map_ext _ (fun im => FI (im_no_off im))) by (intros; symmetry; apply fill_im_no_off).
+    rewrite <- (map_map im_no_off FI), Ai, map_map. reflexivity.
+Qed.
+
+Lemma ims_copy_wf : forall ims gs, Forall call_wf (ims_copy ims gs).
+Proof.
+  induction ims as [|im r IH]; intros [|g q]; cbn [ims_copy]; try constructor; [exact I|].
+  apply Forall_app. split.
+  - eapply Forall_impl; [|apply im_body_is_body]. intros c Hc. destruct c; try (destruct Hc; fail); exact I.
+  - constructor; [exact I|]. constructor; [exact I|apply IH].
 Qed.
 
 Lemma copied_pairs_fill xs :
@@ -857,26 +1161,28 @@ Proof.
   constructor; [exact I|]. constructor; [exact I|]. apply IH. exact H'.
 Qed.
 
-Theorem copy_idempotent_partial : forall guid tops s st rs,
-  units tops -> Forall not_im tops -> Forall call_wf tops ->
-  (forall g proto, In (AddPointcloud g proto) tops -> proto_canonical proto) ->
+Theorem copy_idempotent : forall guid tops s st rs,
+  units tops -> Forall call_wf tops ->
+  (forall g proto, In (AddPointcloud g proto) tops -> scaled_canonical proto) ->
   acceptable_calls G L ws_init ls_init (NewWriter guid :: tops ++ [Finalize]) ->
   wrun (writer_run fmt64 fmt32 version (NewWriter guid :: tops ++ [Finalize])) pw0 = (s, Ok (st, rs)) ->
   forall is os bl, explains tops is os (ws_pcs st) (ws_imgs st) bl ->
   let m' := reader_view (fill_meta fmt64 fmt32 (ws_meta st)) in
-  let tops2 := copy_tops m' (item_points is) in
-  let P2 := copy_calls m' (item_points is) in
+  let gs := program_image_bytes L (NewWriter guid :: tops ++ [Finalize]) in
+  let tops2 := copy_tops m' (item_points is) gs in
+  let P2 := copy_calls m' (item_points is) gs in
   P2 = NewWriter (rt_guid (ws_root st)) :: tops2 ++ [Finalize] /\
-  units tops2 /\ Forall not_im tops2 /\ Forall call_wf tops2 /\
+  units tops2 /\ Forall call_wf tops2 /\
+  Forall2 (fun im g => ghost_ok (im_no_off im) g) (ws_imgs st) gs /\
   acceptable_calls G L ws_init ls_init P2 /\
   exists s2 st2 rs2,
     wrun (writer_run fmt64 fmt32 version P2) pw0 = (s2, Ok (st2, rs2)) /\ Forall res_ok rs2 /\
     content_view st2 = content_view st /\
     forall is2 os2 bl2, explains tops2 is2 os2 (ws_pcs st2) (ws_imgs st2) bl2 ->
-      item_pcs is2 = item_pcs is /\
-      copy_calls (reader_view (fill_meta fmt64 fmt32 (ws_meta st2))) (item_points is2) = P2.
+      item_pcs is2 = item_pcs is /\ program_image_bytes L P2 = gs /\
+      copy_calls (reader_view (fill_meta fmt64 fmt32 (ws_meta st2))) (item_points is2) (program_image_bytes L P2) = P2.
 Proof.
-  intros guid tops s st rs Hu Hni Hwf Hcan Hacc Hrun is os bl Hex m' tops2 P2.
+  intros guid tops s st rs Hu Hwf Hcan Hacc Hrun is os bl Hex m' gs tops2 P2.
   set (P := NewWriter guid :: tops ++ [Finalize]) in *.
   assert (HwfP : Forall call_wf P).
   { constructor; [exact I|]. apply Forall_app. split; [exact Hwf|]. constructor; [exact I|constructor]. }
@@ -905,8 +1211,9 @@ Proof.
   assert (Epcs : a_pcs aP = new) by (rewrite EaP; cbn [astep a_pcs]; exact Hn1).
   assert (Epts : map snd (a_pcs aP) = item_points is).
   { rewrite Epcs. unfold item_points. rewrite <- Hn2, map_map. reflexivity. }
-  pose proof Habs as (Ar & Ae & Ap & Af & _).
-  (* limits, canonical prototypes, no images *)
+  pose proof Habs as (Ar & Ae & Ap & Ai & Af & _).
+  assert (Egs : gs = map snd (a_imgs aP)) by reflexivity.
+  (* limits, canonical prototypes *)
   assert (Hlim : Forall (fun x => custom_limits_ok true true (fst x) = true) (a_pcs aP)).
   { pose proof (explains_limits_complete _ _ _ _ _ _ Hex) as Hl. rewrite forallb_forall in Hl.
     apply Forall_forall. intros x Hx.
@@ -914,23 +1221,20 @@ Proof.
     apply in_map_iff in Hin as (pc & Hpc & Hin). rewrite <- Hpc.
     destruct (no_off_fields pc) as (_ & _ & _ & E). rewrite E, <- limits_complete_custom. apply Hl. exact Hin. }
   assert (Hcanon : Forall (fun x => consistent (fst x) (snd x) /\ proto_canonical (pc_prototype (fst x))) (a_pcs aP)).
-  { destruct Hgood as (_ & _ & Hp & _). pose proof (explains_protos _ _ _ _ _ _ Hex) as Hpr.
-    rewrite Forall_forall in *. intros x Hx. destruct (Hp x Hx) as (_ & _ & Hc). split; [exact Hc|].
+  { destruct Hgood as ((_ & _ & Hp & _) & _). pose proof (explains_protos _ _ _ _ _ _ Hex) as Hpr.
+    rewrite Forall_forall in *. intros x Hx. destruct (Hp x Hx) as ((Hvp & _) & _ & Hc). split; [exact Hc|].
+    apply canonical_of_valid; [exact Hvp|].
     assert (Hin : In (fst x) (map pc_no_off (ws_pcs st))) by (rewrite Ap; apply in_map; exact Hx).
     apply in_map_iff in Hin as (pc & Hpc & Hin). rewrite <- Hpc.
     destruct (no_off_fields pc) as (_ & E & _). rewrite E. destruct (Hpr pc Hin) as (g & Hg). apply (Hcan g _ Hg). }
-  pose proof (explains_no_img _ _ _ _ _ _ Hex Hni) as Himg.
   (* the copy, on the abstract state *)
-  assert (EP2 : P2 = copy_calls (abs_view fmt64 fmt32 aP (map (fill_im fmt64) (ws_imgs st))) (map snd (a_pcs aP))).
-  { unfold P2, m'. rewrite Epts. apply copy_calls_abs. exact Habs. }
+  assert (EP2 : P2 = copy_calls (abs_view fmt64 fmt32 aP) (map snd (a_pcs aP)) (map snd (a_imgs aP))).
+  { unfold P2, m'. rewrite Epts, <- Egs. apply copy_calls_abs. exact Habs. }
   assert (Hcn : Forall (fun x => proto_canonical (pc_prototype (fst x))) (a_pcs aP)).
   { eapply Forall_impl; [|exact Hcanon]. intros x [_ H]. exact H. }
-  destruct (copy_abs fmt64 fmt32 L aP (map (fill_im fmt64) (ws_imgs st)) Hgood Hlim Hcn) as [Hacc2 Hrun2]. cbv zeta in Hacc2, Hrun2.
+  destruct (copy_abs fmt64 fmt32 L aP Hgood Hlim Hcn) as [Hacc2 Hrun2]. cbv zeta in Hacc2, Hrun2.
   rewrite <- EP2 in Hacc2, Hrun2.
   assert (Hu2 : units tops2) by apply copy_tops_units.
-  assert (Hni2 : Forall not_im tops2).
-  { pose proof (copy_calls_not_im m' (item_points is)) as H. unfold copy_calls in H.
-    apply Forall_inv_tail in H. apply Forall_app in H as [H _]. exact H. }
   assert (Hwf2 : Forall call_wf tops2).
   { unfold tops2, copy_tops, m'. constructor; [exact I|]. constructor; [exact I|]. apply Forall_app. split.
     { apply Forall_forall. intros c Hc. apply in_map_iff in Hc as (x & <- & _). exact I. }
@@ -938,7 +1242,13 @@ Proof.
     rewrite <- (pcs_copy_no_off (map FP (ws_pcs st))), map_map.
     rewrite (map_ext _ (fun pc => FP (pc_no_off pc))) by (intros; symmetry; apply fill_no_off).
     rewrite <- (map_map pc_no_off FP), Ap, map_map, <- Epts.
-    destruct Hgood as (_ & _ & Hp & _). apply (copy_pcs_wf _ _ Hp). }
+    apply Forall_app. split; [|apply ims_copy_wf].
+    destruct Hgood as ((_ & _ & Hp & _) & _). apply (copy_pcs_wf _ _ Hp). }
+  assert (Hghost : Forall2 (fun im g => ghost_ok (im_no_off im) g) (ws_imgs st) gs).
+  { rewrite Egs. destruct Hgood as (_ & (Him & _)). clear - Ai Him. revert Ai Him.
+    generalize (a_imgs aP). induction (ws_imgs st) as [|im r IH]; intros [|[x g] q] Ai Him; try discriminate Ai; cbn [map]; constructor.
+    - cbn [map fst] in Ai. inversion Ai as [[E1 E2]]. rewrite E1. apply Forall_inv in Him. destruct Him as [H _]. exact H.
+    - cbn [map] in Ai. inversion Ai. apply IH; [assumption|]. apply (Forall_inv_tail Him). }
   assert (HP2 : P2 = NewWriter (rt_guid (ws_root st)) :: tops2 ++ [Finalize]).
   { unfold P2, copy_calls, tops2, m'. cbn. destruct (ws_root st). reflexivity. }
   assert (HwfP2 : Forall call_wf P2).
@@ -947,22 +1257,20 @@ Proof.
   assert (HACC2 : acceptable_calls G L ws_init ls_init P2).
   { apply (lift_acc G L (gen_full_ok fmt64 fmt32) P2 ws_init ls_init a_init ws_inv_init); try assumption.
     - intros H; discriminate H.
-    - unfold P2. apply copy_calls_not_im.
     - exact absr_init. }
-  split; [exact HP2|]. split; [exact Hu2|]. split; [exact Hni2|]. split; [exact Hwf2|]. split; [exact HACC2|].
+  split; [exact HP2|]. split; [exact Hu2|]. split; [exact Hwf2|]. split; [exact Hghost|]. split; [exact HACC2|].
   destruct (api_accepts_abs fmt64 fmt32 version P2 HwfP2 Hb2 HACC2) as (s2 & st2 & rs2 & l2 & Hr2 & Hspec2 & Hok2 & Hinv2 & Habs2).
   exists s2, st2, rs2. split; [exact Hr2|]. split; [exact Hok2|].
-  rewrite Hrun2 in Habs2. pose proof Habs2 as (Ar2 & Ae2 & Ap2 & _). cbn [a_root a_exts a_pcs] in Ar2, Ae2, Ap2.
+  pose proof Hrun2 as Hrun2'. rewrite Hrun2 in Habs2. pose proof Habs2 as (Ar2 & Ae2 & Ap2 & Ai2 & _).
+  cbn [a_root a_exts a_pcs a_imgs] in Ar2, Ae2, Ap2, Ai2.
   (* the images of the copy *)
-  assert (Himg2 : ws_imgs st2 = []).
-  { rewrite HP2 in Hspec2. unfold writer_run in Hspec2.
-    destruct (complete_prog G L _ tops2 l2 st2 rs2 Hu2 Hwf2 Hspec2 Hok2) as (is2 & os2 & xml2 & bl2 & st3 & Hex2 & _).
-    apply (explains_no_img _ _ _ _ _ _ Hex2 Hni2). }
+  assert (Eimg : map (fun im => im_no_off (FI im)) (ws_imgs st2) = map (fun im => im_no_off (FI im)) (ws_imgs st)).
+  { rewrite !map_im_no_off_fill, Ai2, Ai, !map_map. apply map_ext. intros x. cbn [filled_im fst]. apply fill_im_idem. }
   assert (Efill : map (fun pc => pc_no_off (FP pc)) (ws_pcs st2) = map (fun pc => pc_no_off (FP pc)) (ws_pcs st)).
   { rewrite !map_no_off_fill, Ap2, Ap, !map_map.
     pose proof (copied_pairs_fill _ Hcanon) as H. rewrite map_map in H. exact H. }
   split.
-  { unfold content_view. rewrite Efill, Ae2, Ae, Himg2, Himg, Ar2, <- Ar. f_equal.
+  { unfold content_view. rewrite Efill, Eimg, Ae2, Ae, Ar2, <- Ar. f_equal.
     destruct (ws_root st). unfold copied_root, fill_root. cbn.
     rewrite (omap_idem _ _ (fill_dt_idem fmt64 nan_text64)). reflexivity. }
   intros is2 os2 bl2 Hex2.
@@ -976,16 +1284,21 @@ Proof.
   { rewrite <- Hm2, Enew2, <- Hn2, <- Epcs, map_map. apply map_ext. intros x. unfold pair_item, copied_pair. cbn [fst snd].
     rewrite copied_proto. change (pc_prototype (FP (fst x))) with (map FR (pc_prototype (fst x))). rewrite dtypes_fill. reflexivity. }
   split; [exact Eitems|].
-  rewrite (copy_calls_abs st2 _ _ Habs2), EP2. unfold item_points. rewrite Eitems. fold (item_points is). rewrite <- Epts.
-  unfold copy_calls, copy_tops, abs_view. cbn [fm_root fm_extensions fm_pointclouds a_root a_exts a_pcs].
+  assert (Egs2 : program_image_bytes L P2 = gs).
+  { unfold program_image_bytes. rewrite Hrun2'. cbn [a_imgs]. rewrite map_map. rewrite Egs. reflexivity. }
+  split; [exact Egs2|]. rewrite Egs2.
+  rewrite (copy_calls_abs st2 _ _ _ Habs2), EP2. unfold item_points. rewrite Eitems. fold (item_points is). rewrite <- Epts, <- Egs.
+  unfold copy_calls, copy_tops, abs_view. cbn [fm_root fm_extensions fm_pointclouds fm_images a_root a_exts a_pcs a_imgs].
   rewrite (copied_pairs_fill _ Hcanon).
+  replace (map (fun x => FI (fst x)) (map (filled_im fmt64) (a_imgs aP))) with (map (fun x => FI (fst x)) (a_imgs aP))
+    by (rewrite map_map; apply map_ext; intros x; cbn [filled_im fst]; symmetry; apply fill_im_idem).
   destruct (a_root aP). unfold copied_root, reader_root, fill_root. cbn.
   rewrite (omap_idem _ _ (fill_dt_idem fmt64 nan_text64)). reflexivity.
 Qed.
 
 End Copy.
 
-Print Assumptions copy_idempotent_partial.
+Print Assumptions copy_idempotent.
 
 (** * 11. The calls of the copy are inside the quantifier of the read-back theorem
     ([call_ok] of Proofs/WapiFullInv.v: strings of XML characters, limits that are i64 values),
@@ -1056,19 +1369,41 @@ Proof.
     constructor; [exact I|]. constructor; [exact I|]. apply IH. exact H'.
 Qed.
 
-Theorem copy_calls_ok : forall st pts, meta_inv st ->
-  Forall call_wf (copy_calls (reader_view (fill_meta fmt64 fmt32 (ws_meta st))) pts) ->
-  Forall call_ok (copy_calls (reader_view (fill_meta fmt64 fmt32 (ws_meta st))) pts).
+Lemma opt_set_extra {A} (mk : A -> im_field) (o : option A) :
+  (forall v, o = Some v -> im_field_ok (mk v)) -> Forall call_extra (opt_set mk o).
+Proof. intros H. destruct o; repeat constructor. cbn [call_extra]. apply H. reflexivity. Qed.
+
+Lemma im_copy_extra : forall ims gs, forallb image_xml_ok ims = true ->
+  Forall call_extra (ims_copy (map (fill_im fmt64) ims) gs).
 Proof.
-  intros st pts (He & Hr & Hp & _) Hwf.
-  assert (Hx : Forall call_extra (copy_calls (reader_view (fill_meta fmt64 fmt32 (ws_meta st))) pts)).
-  { unfold copy_calls, copy_tops, reader_view, fill_meta, ws_meta. cbn [fm_root fm_extensions fm_pointclouds app].
+  induction ims as [|im r IH]; intros [|g q] H; cbn [map ims_copy]; try constructor.
+  - cbn [forallb] in H. apply andb_prop in H as [H _]. unfold image_xml_ok in H. repeat (apply andb_prop in H as [H ?]).
+    destruct im as [[gd|]]; cbn in *; [assumption|reflexivity].
+  - cbn [forallb] in H. apply andb_prop in H as [H H']. unfold image_xml_ok in H. repeat (apply andb_prop in H as [H ?]).
+    apply Forall_app. split.
+    + destruct im as [gd vr pr tr pg nm ds aq sv sm ss]. unfold im_body, im_setters. cbn in *.
+      repeat (apply Forall_app; split); try (apply opt_set_extra; intros v ->; cbn; try exact I; assumption).
+      * apply opt_set_extra. intros; exact I.
+      * apply opt_set_extra. intros; exact I.
+      * unfold vis_call. destruct vr, (fst g) as [[d k]|]; repeat constructor.
+      * unfold proj_call. destruct pr as [[x|x|x]|], (snd g) as [[d k]|]; cbn; repeat constructor.
+    + constructor; [exact I|]. constructor; [exact I|]. apply IH. exact H'.
+Qed.
+
+Theorem copy_calls_ok : forall st pts gs, meta_inv st ->
+  Forall call_wf (copy_calls (reader_view (fill_meta fmt64 fmt32 (ws_meta st))) pts gs) ->
+  Forall call_ok (copy_calls (reader_view (fill_meta fmt64 fmt32 (ws_meta st))) pts gs).
+Proof.
+  intros st pts gs (He & Hr & Hp & Hi & _) Hwf.
+  assert (Hx : Forall call_extra (copy_calls (reader_view (fill_meta fmt64 fmt32 (ws_meta st))) pts gs)).
+  { unfold copy_calls, copy_tops, reader_view, fill_meta, ws_meta. cbn [fm_root fm_extensions fm_pointclouds fm_images app].
     destruct Hr as (_ & _ & R3 & _ & R5). destruct (ws_root st). cbn in R3, R5 |- *.
     constructor; [exact R3|]. constructor; [exact R5|]. constructor; [exact I|].
     rewrite <- app_assoc. apply Forall_app. split.
     { destruct He as (F & _). apply Forall_forall. intros c Hc. apply in_map_iff in Hc as (e & <- & Hin).
       rewrite Forall_forall in F. destruct (F e Hin) as (_ & _ & _ & H). exact H. }
-    apply Forall_app. split; [apply (pc_copy_extra (ws_exts st)); exact Hp|constructor; [exact I|constructor]]. }
+    rewrite <- app_assoc. apply Forall_app. split; [apply (pc_copy_extra (ws_exts st)); exact Hp|].
+    apply Forall_app. split; [apply im_copy_extra; exact Hi|constructor; [exact I|constructor]]. }
   rewrite Forall_forall in *. intros c Hc. apply call_ok_split. split; [apply Hwf|apply Hx]; exact Hc.
 Qed.
 
@@ -1093,16 +1428,17 @@ Hypothesis nan_text32 : forall b, fmt32 (canon32 b) = fmt32 b.
 Notation G := (gen_xml_full fmt64 fmt32).
 Notation L := (lib_version_text version).
 
-Theorem copy_reads_back_partial : forall guid tops s st rs,
-  units tops -> Forall not_im tops ->
+Theorem copy_reads_back : forall guid tops s st rs,
+  units tops ->
   Forall call_ok (NewWriter guid :: tops ++ [Finalize]) ->
-  (forall g proto, In (AddPointcloud g proto) tops -> proto_canonical proto) ->
+  (forall g proto, In (AddPointcloud g proto) tops -> scaled_canonical proto) ->
   acceptable_calls G L ws_init ls_init (NewWriter guid :: tops ++ [Finalize]) ->
   wrun (writer_run fmt64 fmt32 version (NewWriter guid :: tops ++ [Finalize])) pw0 = (s, Ok (st, rs)) ->
   forall is os bl, explains tops is os (ws_pcs st) (ws_imgs st) bl ->
   let m' := reader_view (fill_meta fmt64 fmt32 (ws_meta st)) in
-  let tops2 := copy_tops m' (item_points is) in
-  let P2 := copy_calls m' (item_points is) in
+  let gs := program_image_bytes L (NewWriter guid :: tops ++ [Finalize]) in
+  let tops2 := copy_tops m' (item_points is) gs in
+  let P2 := copy_calls m' (item_points is) gs in
   exists s2 st2 rs2,
     wrun (writer_run fmt64 fmt32 version P2) pw0 = (s2, Ok (st2, rs2)) /\ Forall res_ok rs2 /\
     content_view fmt64 fmt32 st2 = content_view fmt64 fmt32 st /\
@@ -1111,8 +1447,8 @@ Theorem copy_reads_back_partial : forall guid tops s st rs,
      len (d_bytes (pw_dev (fst (pw_flush s2)))) < 2 ^ 64 ->
      exists is2 os2 xml2 bl2,
        explains tops2 is2 os2 (ws_pcs st2) (ws_imgs st2) bl2 /\
-       item_pcs is2 = item_pcs is /\
-       copy_calls (reader_view (fill_meta fmt64 fmt32 (ws_meta st2))) (item_points is2) = P2 /\
+       item_pcs is2 = item_pcs is /\ program_image_bytes L P2 = gs /\
+       copy_calls (reader_view (fill_meta fmt64 fmt32 (ws_meta st2))) (item_points is2) (program_image_bytes L P2) = P2 /\
        let f := d_bytes (pw_dev (fst (pw_flush s2))) in
        all_pages_valid f = true /\
        exists rs0 h d',
@@ -1120,13 +1456,14 @@ Theorem copy_reads_back_partial : forall guid tops s st rs,
          read_meta pf64 pf32 fdiv xml2 = Ok (reader_view (fill_meta fmt64 fmt32 (ws_meta st2))) /\
          Forall2 (reads_back rs0) is2 os2).
 Proof.
-  intros guid tops s st rs Hu Hni Hcalls Hcan Hacc Hrun is os bl Hex m' tops2 P2.
+  intros guid tops s st rs Hu Hcalls Hcan Hacc Hrun is os bl Hex m' gs tops2 P2.
   assert (Hwft : Forall call_wf tops).
   { apply Forall_inv_tail in Hcalls. apply Forall_app in Hcalls as [H _]. rewrite Forall_forall in *.
     intros c Hc. apply (H c Hc). }
-  destruct (copy_idempotent_partial fmt64 fmt32 version nan_text64 nan_text32 guid tops s st rs Hu Hni Hwft Hcan Hacc Hrun
-              is os bl Hex) as (HP2 & Hu2 & Hni2 & Hwf2 & Hacc2 & s2 & st2 & rs2 & Hr2 & Hok2 & Hcv & Hrest).
-  fold m' in HP2, Hu2, Hni2, Hwf2, Hacc2, Hr2, Hrest. fold tops2 in HP2, Hu2, Hni2, Hwf2, Hrest. fold P2 in HP2, Hacc2, Hr2, Hrest.
+  destruct (copy_idempotent fmt64 fmt32 version nan_text64 nan_text32 guid tops s st rs Hu Hwft Hcan Hacc Hrun
+              is os bl Hex) as (HP2 & Hu2 & Hwf2 & _ & Hacc2 & s2 & st2 & rs2 & Hr2 & Hok2 & Hcv & Hrest).
+  fold m' in HP2, Hu2, Hwf2, Hacc2, Hr2, Hrest. fold gs in HP2, Hu2, Hwf2, Hacc2, Hr2, Hrest.
+  fold tops2 in HP2, Hu2, Hwf2, Hrest. fold P2 in HP2, Hacc2, Hr2, Hrest.
   exists s2, st2, rs2. split; [exact Hr2|]. split; [exact Hok2|]. split; [exact Hcv|].
   intros Hu64 Him Hext Hxml Hsz.
   (* the metadata invariant of the original's final state *)
@@ -1137,16 +1474,16 @@ Proof.
   pose proof (meta_run G L (gen_full_total fmt64 fmt32) version_ok _ ws_init ls_init l st rs ws_inv_init meta_inv_init Hcalls Espec)
     as Hmeta.
   assert (Hok2' : Forall call_ok P2).
-  { apply (copy_calls_ok fmt64 fmt32 st (item_points is) Hmeta). fold m'. fold P2. rewrite HP2.
+  { apply (copy_calls_ok fmt64 fmt32 st (item_points is) gs Hmeta). fold m'. fold P2. rewrite HP2.
     constructor; [exact I|]. apply Forall_app. split; [exact Hwf2|constructor; [exact I|constructor]]. }
   rewrite HP2 in Hok2', Hr2.
   destruct (accepted_reads_back fmt64 fmt32 pf64 pf32 fdiv version plain64 plain32 back64 back32 version_ok
               _ tops2 s2 st2 rs2 Hu2 Hok2' Hr2 Hok2 Hu64 Him Hext Hxml Hsz)
     as (is2 & os2 & xml2 & bl2 & Hex2 & _ & _ & Hfile).
-  destruct (Hrest is2 os2 bl2 Hex2) as [E1 E2].
-  exists is2, os2, xml2, bl2. split; [exact Hex2|]. split; [exact E1|]. split; [exact E2|]. exact Hfile.
+  destruct (Hrest is2 os2 bl2 Hex2) as (E1 & E2 & E3).
+  exists is2, os2, xml2, bl2. split; [exact Hex2|]. split; [exact E1|]. split; [exact E2|]. split; [exact E3|]. exact Hfile.
 Qed.
 
 End CopyRead.
 
-Print Assumptions copy_reads_back_partial.
+Print Assumptions copy_reads_back.
